@@ -97,19 +97,57 @@ def check(run):
     run.need(mf is not None, "metric is not stored in a field")
     run.check(df is not None, "AGREE", "init.flag", f"{init.path}:{init.fn.lineno}", f"{CLS}.__init__", "dict flag field",
               "the dict_input_metric argument is not stored unchanged", f"self.{df} = {pnames[1]}")
-    # ---- SIGN field --------------------------------------------------------------------------------
-    sf = next((f for f, t in init.fields.items() if t[0] == "gate" and {const_value(t[2]), const_value(t[3])} == {1, -1}),
-              None)
+    # ---- SIGN: the factor the metric's value is multiplied with, traced back to the constructor ---------------
+    import ast as _ast
+
+    def class_default(f):
+        for k in prog.mro(cls):
+            node = k.class_attrs.get(f)
+            if isinstance(node, _ast.Constant):
+                return ("const", node.value)
+            if isinstance(node, _ast.UnaryOp) and isinstance(node.op, _ast.USub) and isinstance(node.operand, _ast.Constant):
+                return ("const", -node.operand.value)
+        return None
+
+    def resolve(t, depth=0):
+        """the term with every field replaced by what the constructor leaves there (class-level defaults included)"""
+        if depth > 3 or not isinstance(t, tuple) or not t:
+            return t
+        if t[0] == "field0":
+            if depth and t[1] not in init.fields:
+                return class_default(t[1]) or t
+            v = init.fields.get(t[1])
+            if v is None:
+                return class_default(t[1]) or t
+            return resolve(ir.subst(v, {t: class_default(t[1]) or t}), depth + 1) if v != t else (class_default(t[1]) or t)
+        return tuple(resolve(x, depth) if isinstance(x, tuple) else x for x in t)
+
+    def unwrap(c):
+        while c[0] == "fn" and c[1] == "bool" and len(c[2]) == 1:
+            c = c[2][0]
+        return c
+
+    def sign_shape(t):
+        return t[0] == "gate" and {const_value(t[2]), const_value(t[3])} == {1, -1}
+    sf = next((f for f, t in init.fields.items() if sign_shape(resolve(("field0", f)))), None)
+    sign_expr = ("field0", sf) if sf is not None else None
     if sf is None:
+        # no field holds the sign: take the factor of the returned value
+        for ev, _ in walk(prog.summarise(cls, "__call__").events):
+            if isinstance(ev, ir.Return) and ev.value[0] == "op" and ev.value[1] == "*":
+                for x in (ev.value[2], ev.value[3]):
+                    if sign_shape(resolve(x)):
+                        sign_expr = x
+    if sign_expr is None:
         cands = [f for f, t in init.fields.items() if f not in (mf, df)]
         run.fail("SIGN", "init.sign", f"{init.path}:{init.fn.lineno}", f"{CLS}.__init__",
                  f"sign = {ir.show_nl(init.fields.get(cands[0])) if cands else None}",
                  "the sign must be -1 for bigger-is-better metrics and +1 otherwise")
     else:
-        t = init.fields[sf]
-        cond, neg_first = t[1], const_value(t[2]) == -1
+        t = resolve(sign_expr)
+        cond, neg_first = unwrap(t[1]), const_value(t[2]) == -1
         attr = ("attr", mp, "bigger_is_better")
-        lits = list(cond[1]) if cond[0] == "and" else [cond]
+        lits = [unwrap(l) for l in (cond[1] if cond[0] == "and" else [cond])]
         has_attr = attr in lits or ("fn", "getattr", (mp, ("const", "bigger_is_better"), ("const", False))) in lits
         only = all(l == attr or l == ("fn", "hasattr", (mp, ("const", "bigger_is_better"))) or
                    (l[0] == "fn" and l[1] == "getattr" and l[2][:2] == (mp, ("const", "bigger_is_better")))
@@ -117,7 +155,7 @@ def check(run):
         run.check(has_attr and only and neg_first, "SIGN", "init.sign", f"{init.path}:{init.fn.lineno}",
                   f"{CLS}.__init__", f"sign = {ir.show_nl(t)}",
                   f"sign must be -1 exactly when the metric's own bigger_is_better attribute is true; found {ir.show_nl(t)}",
-                  f"self.{sf} = {ir.show_nl(t)}")
+                  f"sign = {ir.show_nl(t)}")
     # ---- __call__ ------------------------------------------------------------------------------------
     s = prog.summarise(cls, "__call__")
     fq = f"{CLS}.__call__"
@@ -181,7 +219,7 @@ def check(run):
                      f"[{gtxt}] the loss is not read from the metric between update and revert")
             continue
         rv = ir.assume(rets[-1].value, list(p.guards))
-        sg = ("field0", sf) if sf else None
+        sg = sign_expr
         good = sg is not None and rv in (("op", "*", g.res, sg), ("op", "*", sg, g.res))
         if not good:
             all_ok = False
